@@ -555,6 +555,19 @@ std::string sqf::parser::preprocessor::impl_default::instance::handle_macro(::sq
 { // Needs to handle 'NAME(ARG1, ARG2, ARGN)' not more, not less!
     std::vector<std::string> params;
 
+    if (std::find(m_macro_stack.begin(), m_macro_stack.end(), m.name()) != m_macro_stack.end())
+    { // self- or mutually-recursive macro: report it instead of recursing until the stack is exhausted
+        m_errflag = true;
+        log(err::RecursiveMacro(m.diag_info(), std::string(m.name())));
+        return std::string(m.name());
+    }
+    struct macro_stack_guard
+    {
+        std::vector<std::string>& stack;
+        macro_stack_guard(std::vector<std::string>& stack, std::string name) : stack(stack) { stack.push_back(name); }
+        ~macro_stack_guard() { stack.pop_back(); }
+    } guard(m_macro_stack, std::string(m.name()));
+
     if (!m.is_callable())
     {
 #ifdef DF__SQF_PREPROC__TRACE_MACRO_RESOLVE
